@@ -106,11 +106,14 @@ def _run_movement(case):
 @st.composite
 def geometry_cases(draw):
     rows = draw(gs.streams(1, 30, with_ts=False))
-    return {"kind": "geometry", "stream": rows}
+    # the geometry is a function of the candle's CURRENT prices: it is read, the library rewrites the candle
+    # (Heikin-Ashi conversion, merge, recovery of the raw values), and it is read again
+    then = draw(st.lists(st.sampled_from(("ha", "ha_hexital", "merge", "recover", "ha", "merge")), max_size=3))
+    return {"kind": "geometry", "stream": rows, "then": then}
 
 
-def _run_geometry(case):
-    for i, c in enumerate(mk_candles(case["stream"])):
+def _geometry_of(cs, when):
+    for i, c in enumerate(cs):
         o, h, l, cl = c.open, c.high, c.low, c.close
         want = {
             "realbody": abs(o - cl),
@@ -123,8 +126,39 @@ def _run_geometry(case):
         for k, w in want.items():
             g = getattr(c, k)
             if g != w or isinstance(w, bool) != isinstance(g, bool):
-                return [Violation("geometry-differs", k, f"candle {i} o={o} h={h} l={l} c={cl}: {k}={g!r} want {w!r}", "Candle")], True
-    return [], len(case["stream"]) >= 1
+                return Violation("geometry-differs", k + when, f"candle {i} o={o} h={h} l={l} c={cl}: {k}={g!r} want {w!r}", "Candle")
+    return None
+
+
+def _run_geometry(case):
+    cs = mk_candles(case["stream"])
+    v = _geometry_of(cs, "")
+    for step in case.get("then", []):
+        if v:
+            break
+        try:
+            if step == "ha":
+                from hexital.candlesticks.heikinashi import HeikinAshi
+                from hexital.core.candle_manager import CandleManager
+
+                cs = CandleManager(cs, candlestick_type=HeikinAshi()).candles
+            elif step == "ha_hexital":
+                from hexital import Hexital
+
+                cs = Hexital("geometry", cs, [], candlestick_type="HA").candles()
+            elif step == "merge":
+                for k in range(0, len(cs) - 1, 2):
+                    cs[k].merge(cs[k + 1])
+                cs = cs[::2]
+            elif step == "recover":
+                for c in cs:
+                    c.recover_clean_values()
+        except Exception as exc:
+            from hxv.lib import raises
+
+            return [raises(exc, "Candle")], True
+        v = _geometry_of(cs, ":after-" + step)
+    return ([v] if v else []), len(case["stream"]) >= 1
 
 
 # ------------------------------------------------------------------ pattern witnesses
